@@ -186,7 +186,11 @@ pub fn check(v: &View) -> Vec<Violation> {
         }
         // a stop request never waits for mailbox space and is accepted while the actor runs
         for o in v.ops.iter().filter(|o| o.target == Some(aidx) && matches!(o.inner, Op::Stop { .. } | Op::TryStop { .. }) && !o.skipped()) {
-            let alive = a.dead.is_none_or(|d| o.begin < d);
+            // "runs": its event loop has not ended (the `stopped` that nothing follows has not
+            // begun), and a request made through a weak handle has a strong handle to upgrade to
+            let loop_ended = v.cbs_of(a).last().is_some_and(|c| c.cb == Cb::Stopped && c.enter <= o.begin);
+            let upgradable = o.hk.is_none_or(|k| k.strong()) || crate::census::census(v, aidx).certain_at(o.begin) > 0;
+            let alive = a.dead.is_none_or(|d| o.begin < d) && !loop_ended && upgradable;
             if alive {
                 // was there a backlog at that moment?
                 let queued = v.ops.iter().any(|s| s.target == Some(aidx) && matches!(s.inner, Op::Send { .. }) && s.begin < o.begin && s.end.is_none_or(|e| e > o.begin));
